@@ -66,6 +66,8 @@ enum Rq {
     Tick(u64),
     /// the clock moves on without a tick (only with --free_time 1)
     Advance(u64),
+    /// one command sent as RESP bytes through the production connection handler ('conn' cases)
+    Wire(Vec<Vec<u8>>),
 }
 
 fn b(k: &str) -> bytes::Bytes {
@@ -84,6 +86,7 @@ async fn run_one(st: &State, r: &Rq) -> RespValue {
         )),
         Rq::Tick(_) => RespValue::Integer(st.evict_expired_all_shards().await as i64),
         Rq::Advance(_) => RespValue::simple("OK"),
+        Rq::Wire(_) => unreachable!("wire commands are run by run_conn"),
     }
 }
 
@@ -221,6 +224,7 @@ fn rq_term(r: &Rq) -> Option<String> {
         Rq::PipeGet(ks) => format!("(BG {})", clist(ks.iter(), |k| hk(k))),
         Rq::PipeSet(kvs) => format!("(BS {})", clist(kvs.iter(), |(k, v)| format!("({}, {})", hk(k), chex(v)))),
         Rq::Tick(_) | Rq::Advance(_) => return None, // time is outside the Coq model
+        Rq::Wire(_) => return None,                  // so is the connection layer (C04/C05)
     })
 }
 fn lossy(v: &[u8]) -> String {
@@ -242,7 +246,11 @@ fn rq_text(r: &Rq) -> String {
                 Command::Scan { cursor, pattern, count } => vec![format!("cursor={} match={:?} count={:?}", cursor, pattern, count)],
                 Command::Sort { store, .. } => vec![format!("store={:?}", store)],
                 Command::LMove { wherefrom, whereto, .. } => vec![wherefrom.clone(), whereto.clone()],
-                Command::Eval { script, .. } => vec![format!("{:?}", script)],
+                Command::Eval { script, args, .. } => vec![format!("{:?}", script), args.iter().map(|a| lossy(a.as_bytes())).collect::<Vec<_>>().join(" ")],
+                Command::EvalSha { sha1, args, .. } => vec![format!("sha={}", sha1), args.iter().map(|a| lossy(a.as_bytes())).collect::<Vec<_>>().join(" ")],
+                Command::ScriptLoad(sc) => vec![format!("{:?}", sc)],
+                Command::ScriptExists(shas) => vec![shas.join(" ")],
+                Command::ScriptFlush => vec![],
                 Command::Get(_) | Command::StrLen(_) | Command::TypeOf(_) | Command::LPop(_) | Command::RPop(_) | Command::LLen(_) | Command::LRange(..)
                 | Command::MGet(_) | Command::Del(_) | Command::Exists(_) | Command::Keys(_) | Command::DbSize | Command::FlushDb | Command::FlushAll
                 | Command::Ping(_) | Command::RPopLPush(..) | Command::Rename(..) | Command::RenameNx(..) | Command::RandomKey => vec![],
@@ -258,6 +266,7 @@ fn rq_text(r: &Rq) -> String {
         Rq::PipeSet(kvs) => format!("fast_batch_set_pipeline({})", kv(kvs)),
         Rq::Tick(ms) => format!("clock += {} ms; evict_expired_all_shards()", ms),
         Rq::Advance(ms) => format!("clock += {} ms", ms),
+        Rq::Wire(a) => format!("wire: {}", a.iter().map(|x| lossy(x)).collect::<Vec<_>>().join(" ")),
     }
 }
 fn show(v: &RespValue) -> String {
@@ -282,6 +291,7 @@ fn rq_kind(r: &Rq) -> String {
         Rq::PipeSet(_) => "fast_batch_set_pipeline".into(),
         Rq::Tick(_) => "tick:evict_expired_all_shards".into(),
         Rq::Advance(_) => "clock-advance-without-tick".into(),
+        Rq::Wire(a) => format!("wire:{}", String::from_utf8_lossy(&a[0]).to_uppercase()),
     }
 }
 
@@ -658,6 +668,254 @@ fn mass_expiry(rng: &mut Rng) -> Vec<Rq> {
     v.push(Rq::Gen(Command::DbSize));
     v
 }
+// ---------------------------------------------------------------- Lua scripts ('script' cases)
+/// single-key scripts: they touch KEYS[1] only (multi-key / keyless scripts are the known class)
+const SCRIPTS: [&str; 9] = [
+    "return redis.call('GET', KEYS[1])",
+    "return redis.call('SET', KEYS[1], ARGV[1])",
+    "return redis.call('INCR', KEYS[1])",
+    "return ARGV[1]",
+    "return redis.call('LPUSH', KEYS[1], 'x')",
+    "return {KEYS[1], ARGV[1]}",
+    "return redis.call('APPEND', KEYS[1], ARGV[1])",
+    "return 1",
+    "redis.call('SET', KEYS[1], ARGV[1]) return redis.call('STRLEN', KEYS[1])",
+];
+fn sha_of(script: &str) -> String {
+    redis_sim::redis::lua::ScriptCache::compute_sha1(script)
+}
+fn script_key(rng: &mut Rng, c: &Ctx) -> String {
+    let ne: Vec<&String> = c.sk.iter().filter(|k| !k.is_empty()).collect();
+    ne[rng.gen_range(0..ne.len())].clone()
+}
+fn gen_script(rng: &mut Rng, c: &Ctx) -> Rq {
+    let sc = SCRIPTS[rng.gen_range(0..SCRIPTS.len())];
+    let k = script_key(rng, c);
+    let args = vec![sds(rng)];
+    Rq::Gen(match rng.gen_range(0..100) {
+        0..=29 => Command::Eval { script: sc.to_string(), keys: vec![k], args },
+        30..=64 => Command::EvalSha { sha1: sha_of(sc), keys: vec![k], args },
+        65..=74 => Command::ScriptLoad(sc.to_string()),
+        75..=89 => Command::ScriptExists(vec![sha_of(sc), sha_of(SCRIPTS[rng.gen_range(0..SCRIPTS.len())]), "0000000000000000000000000000000000000000".to_string()]),
+        90..=94 => Command::ScriptFlush,
+        _ => Command::EvalSha { sha1: "ffffffffffffffffffffffffffffffffffffffff".to_string(), keys: vec![k], args },
+    })
+}
+/// a script introduced by EVAL on one key (or by SCRIPT LOAD), used by EVALSHA on every other key,
+/// SCRIPT EXISTS, SCRIPT FLUSH, EVALSHA again
+fn script_block(rng: &mut Rng, c: &Ctx) -> Vec<Rq> {
+    let keys: Vec<String> = c.sk.iter().filter(|k| !k.is_empty()).cloned().collect();
+    let (a, b2) = (SCRIPTS[rng.gen_range(0..SCRIPTS.len())], SCRIPTS[rng.gen_range(0..SCRIPTS.len())]);
+    let mut v = Vec::new();
+    let arg = || vec![SDS::from_str("7")];
+    v.push(Rq::Gen(Command::Eval { script: a.to_string(), keys: vec![keys[0].clone()], args: arg() }));
+    for k in &keys {
+        v.push(Rq::Gen(Command::EvalSha { sha1: sha_of(a), keys: vec![k.clone()], args: arg() }));
+    }
+    v.push(Rq::Gen(Command::ScriptExists(vec![sha_of(a), sha_of(b2)])));
+    v.push(Rq::Gen(Command::ScriptLoad(b2.to_string())));
+    for k in &keys {
+        v.push(Rq::Gen(Command::EvalSha { sha1: sha_of(b2), keys: vec![k.clone()], args: arg() }));
+    }
+    v.push(Rq::Gen(Command::ScriptExists(vec![sha_of(a), sha_of(b2)])));
+    v.push(Rq::Gen(Command::ScriptFlush));
+    for k in &keys {
+        v.push(Rq::Gen(Command::EvalSha { sha1: sha_of(if rng.gen_bool(0.5) { a } else { b2 }), keys: vec![k.clone()], args: arg() }));
+    }
+    v.push(Rq::Gen(Command::ScriptExists(vec![sha_of(a), sha_of(b2)])));
+    v
+}
+
+// ---------------------------------------------------------------- the connection handler ('conn' cases)
+fn w(args: &[&[u8]]) -> Rq {
+    Rq::Wire(args.iter().map(|a| a.to_vec()).collect())
+}
+fn wire_cmd(rng: &mut Rng, c: &Ctx, in_multi: bool) -> Rq {
+    let ne: Vec<&String> = c.sk.iter().filter(|k| !k.is_empty()).collect();
+    let k = ne[rng.gen_range(0..ne.len())].clone();
+    let kb = k.as_bytes();
+    let v = val(rng);
+    let d = c.d(rng);
+    // inside MULTI the keyspace-wide commands are more frequent
+    let wide_p = if in_multi { 45 } else { 25 };
+    if rng.gen_range(0..100) < wide_p {
+        return match rng.gen_range(0..12) {
+            0 | 1 => w(&[b"FLUSHALL"]),
+            2 => w(&[b"FLUSHDB"]),
+            3 | 4 => {
+                let p = gen_pattern(rng, c);
+                w(&[b"KEYS", p.as_bytes()])
+            }
+            5 | 6 => w(&[b"DBSIZE"]),
+            7 => {
+                let cnt = rng.gen_range(1..6).to_string();
+                if rng.gen_bool(0.5) {
+                    let p = gen_pattern(rng, c);
+                    w(&[b"SCAN", b"0", b"MATCH", p.as_bytes(), b"COUNT", cnt.as_bytes()])
+                } else {
+                    w(&[b"SCAN", b"0", b"COUNT", cnt.as_bytes()])
+                }
+            }
+            8 => {
+                let ks = c.some(rng, 1, 4, false);
+                let mut a: Vec<Vec<u8>> = vec![b"MGET".to_vec()];
+                a.extend(ks.iter().map(|k| k.as_bytes().to_vec()));
+                Rq::Wire(a)
+            }
+            9 => {
+                let mut ks = c.some(rng, 1, 3, true);
+                let mut seen = BTreeSet::new();
+                ks.retain(|k| seen.insert(k.clone()));
+                let mut a: Vec<Vec<u8>> = vec![b"MSET".to_vec()];
+                for k in ks {
+                    a.push(k.into_bytes());
+                    a.push(val(rng));
+                }
+                Rq::Wire(a)
+            }
+            10 => {
+                let ks = c.some(rng, 1, 3, false);
+                let mut a: Vec<Vec<u8>> = vec![b"DEL".to_vec()];
+                a.extend(ks.iter().map(|k| k.as_bytes().to_vec()));
+                Rq::Wire(a)
+            }
+            _ => {
+                let ks = c.some(rng, 1, 3, false);
+                let mut a: Vec<Vec<u8>> = vec![b"EXISTS".to_vec()];
+                a.extend(ks.iter().map(|k| k.as_bytes().to_vec()));
+                Rq::Wire(a)
+            }
+        };
+    }
+    match rng.gen_range(0..12) {
+        0..=2 => w(&[b"SET", kb, &v]),
+        3..=5 => w(&[if rng.gen_bool(0.5) { b"GET" } else { b"get" }, kb]),
+        6 => w(&[b"APPEND", kb, &v]),
+        7 => w(&[b"STRLEN", kb]),
+        8 => w(&[b"INCR", kb]),
+        9 => w(&[b"RPUSH", d.as_bytes(), &v]),
+        10 => w(&[b"LRANGE", d.as_bytes(), b"0", b"-1"]),
+        _ => w(&[b"PING"]),
+    }
+}
+/// plain commands, pipelines (several commands per read) and MULTI .. EXEC / DISCARD blocks whose bodies
+/// mix keyspace-wide commands with single-key writes and reads; then a dump.
+/// Returns the commands and, per command, whether it starts a new read.
+fn gen_conn(rng: &mut Rng, c: &Ctx) -> (Vec<Rq>, Vec<bool>) {
+    let mut seq = Vec::new();
+    let items = rng.gen_range(5..14);
+    for _ in 0..items {
+        if rng.gen_bool(0.45) {
+            seq.push(w(&[b"MULTI"]));
+            for _ in 0..rng.gen_range(2..7) {
+                seq.push(wire_cmd(rng, c, true));
+            }
+            seq.push(if rng.gen_bool(0.9) { w(&[b"EXEC"]) } else { w(&[b"DISCARD"]) });
+        } else {
+            for _ in 0..rng.gen_range(1..4) {
+                seq.push(wire_cmd(rng, c, false));
+            }
+        }
+    }
+    seq.push(w(&[b"DBSIZE"]));
+    seq.push(w(&[b"KEYS", b"*"]));
+    for k in c.all() {
+        if !k.is_empty() {
+            seq.push(w(&[b"GET", k.as_bytes()]));
+            seq.push(w(&[b"LRANGE", k.as_bytes(), b"0", b"-1"]));
+        }
+    }
+    let pipelined = rng.gen_bool(0.5);
+    let starts: Vec<bool> = (0..seq.len()).map(|i| i == 0 || !pipelined || rng.gen_bool(0.4)).collect();
+    (seq, starts)
+}
+fn enc_wire(a: &[Vec<u8>]) -> Vec<u8> {
+    let mut v = format!("*{}\r\n", a.len()).into_bytes();
+    for x in a {
+        v.extend_from_slice(format!("${}\r\n", x.len()).as_bytes());
+        v.extend_from_slice(x);
+        v.extend_from_slice(b"\r\n");
+    }
+    v
+}
+fn wire_name(r: &Rq) -> String {
+    match r {
+        Rq::Wire(a) => String::from_utf8_lossy(&a[0]).to_uppercase(),
+        _ => String::new(),
+    }
+}
+fn canon_wire(cmd: &Rq, v: RespValue) -> RespValue {
+    let v = canon(cmd, v); // error kinds
+    match (wire_name(cmd).as_str(), v) {
+        ("KEYS", RespValue::Array(Some(mut l))) => {
+            bulk_sort(&mut l);
+            RespValue::Array(Some(l))
+        }
+        ("SCAN", RespValue::Array(Some(mut parts))) => {
+            if parts.len() == 2 {
+                if let RespValue::Array(Some(l)) = &mut parts[1] {
+                    bulk_sort(l);
+                }
+            }
+            RespValue::Array(Some(parts))
+        }
+        (_, v) => v,
+    }
+}
+/// the same byte stream through a fresh OptimizedConnectionHandler on a fresh n-shard state: one
+/// reply per command, in order (C04); the elements of an EXEC reply belong to the queued commands
+async fn run_conn(n: usize, seq: &[Rq], starts: &[bool]) -> Vec<RespValue> {
+    use redis_sim::production::ConnectionConfig;
+    let mut chunks: Vec<Vec<u8>> = Vec::new();
+    for (r, st) in seq.iter().zip(starts) {
+        let bytes = match r { Rq::Wire(a) => enc_wire(a), _ => unreachable!() };
+        if *st || chunks.is_empty() { chunks.push(bytes) } else { chunks.last_mut().unwrap().extend(bytes) }
+    }
+    let state = ShardedActorState::with_shards(n);
+    let config = ConnectionConfig { max_buffer_size: 1 << 24, read_buffer_size: 1 << 20, min_pipeline_buffer: 60, batch_threshold: 2 };
+    let (written, _) = vharness::conn::run_handler(state, config, chunks).await;
+    let mut replies = Vec::new();
+    let mut off = 0;
+    while off < written.len() {
+        match redis_sim::redis::RespParser::parse(&written[off..]) {
+            Ok((v, used)) if used > 0 => {
+                replies.push(v);
+                off += used;
+            }
+            _ => {
+                replies.push(RespValue::Error(format!("UNPARSABLE OUTPUT at byte {}", off).into()));
+                break;
+            }
+        }
+    }
+    let mut out = Vec::new();
+    let mut queue: Vec<&Rq> = Vec::new();
+    let mut in_multi = false;
+    for (i, r) in seq.iter().enumerate() {
+        let v = replies.get(i).cloned().unwrap_or_else(|| RespValue::Error("MISSING REPLY".into()));
+        let name = wire_name(r);
+        let v = match name.as_str() {
+            "MULTI" => { in_multi = true; queue.clear(); v }
+            "DISCARD" => { in_multi = false; queue.clear(); v }
+            "EXEC" => {
+                in_multi = false;
+                let q = std::mem::take(&mut queue);
+                match v {
+                    RespValue::Array(Some(items)) if items.len() == q.len() => RespValue::Array(Some(items.into_iter().zip(q).map(|(x, c)| canon_wire(c, x)).collect())),
+                    other => other,
+                }
+            }
+            _ if in_multi => { queue.push(r); v }
+            _ => canon_wire(r, v),
+        };
+        out.push(v);
+    }
+    if replies.len() != seq.len() {
+        out.push(RespValue::Error(format!("{} replies for {} commands", replies.len(), seq.len()).into()));
+    }
+    out
+}
+
 fn dump_tail(c: &Ctx, wide: bool) -> Vec<Rq> {
     let all = c.all();
     let mut v = vec![Rq::Gen(Command::Keys("*".into())), Rq::Gen(Command::DbSize), Rq::Gen(Command::MGet(all.clone())), Rq::Gen(Command::Exists(all.clone())), Rq::PipeGet(all.clone())];
@@ -679,7 +937,7 @@ fn main() {
     let a: Vec<String> = std::env::args().collect();
     let args = &Args::parse(&a[1..]);
     let mut out = Out::new(&args.out, "C03", args.shards, HEADER);
-    out.nontrivial_rule = "one case = one request sequence (8-30 requests + a KEYS/DBSIZE/MGET/EXISTS/TYPE/GET/LRANGE dump of every key of the case) run on a real 1-shard and a real N-shard ShardedActorState, N drawn from {2,3,16}; all entry paths mixed on 6-10 keys: plain names from two pools that cover every shard of every N plus 1-2 names of unusual shape (hash-tag shapes {a}, x{a}y, {}, {{a}}, shared / differing tags, blanks, CR/LF/NUL/0x7f, multi-byte UTF-8, lengths 7/8/9/15/16/17, 300-500 byte names); every string key is written through one entry path and read back through the other routing function's paths inside the sequence; 'pure' cases use only single-home requests, 'class' cases add two-key / keyless state-dependent commands, 'scan' cases add SCAN with a small COUNT and cursors, 'wide' cases add sets/hashes/zsets/counters and 'ttl' cases add SET..PX/EX, EXPIRE/PEXPIRE/PERSIST, TTL/PTTL, clock advances with evict_expired_all_shards ticks and (35 %) a block of 260-420 keys expiring in one tick followed by fast-path reads (both compared 1-vs-N only: time is outside the Coq model); KEYS / SCAN MATCH patterns cover the whole glob grammar of the executor (literals, *, ?, classes with ranges and negation, class-only patterns, degenerate classes); every case also carries the routing facts observed by probing (shard-0 membership and co-location under both routing functions) and the raw DefaultHasher values of its keys; non-trivial = the N-shard run touched at least two different shards; distinct by request text".into();
+    out.nontrivial_rule = "one case = one request sequence (8-30 requests + a KEYS/DBSIZE/MGET/EXISTS/TYPE/GET/LRANGE dump of every key of the case) run on a real 1-shard and a real N-shard ShardedActorState, N drawn from {2,3,16}; all entry paths mixed on 6-10 keys: plain names from two pools that cover every shard of every N plus 1-2 names of unusual shape (hash-tag shapes {a}, x{a}y, {}, {{a}}, shared / differing tags, blanks, CR/LF/NUL/0x7f, multi-byte UTF-8, lengths 7/8/9/15/16/17, 300-500 byte names); every string key is written through one entry path and read back through the other routing function's paths inside the sequence; 'pure' cases use only single-home requests, 'class' cases add two-key / keyless state-dependent commands, 'scan' cases add SCAN with a small COUNT and cursors, 'script' cases add single-key EVAL / EVALSHA (sha computed by the harness) / SCRIPT LOAD / SCRIPT EXISTS / SCRIPT FLUSH with a script introduced on one key and used on the others; 'conn' cases send one RESP byte stream (plain commands, pipelines, MULTI..EXEC/DISCARD blocks mixing FLUSHALL/FLUSHDB/KEYS/DBSIZE/SCAN/MGET/MSET/DEL/EXISTS with single-key writes and reads) through the production OptimizedConnectionHandler on a 1-shard and an N-shard state; 'wide' cases add sets/hashes/zsets/counters and 'ttl' cases add SET..PX/EX, EXPIRE/PEXPIRE/PERSIST, TTL/PTTL, clock advances with evict_expired_all_shards ticks and (35 %) a block of 260-420 keys expiring in one tick followed by fast-path reads (both compared 1-vs-N only: time is outside the Coq model); KEYS / SCAN MATCH patterns cover the whole glob grammar of the executor (literals, *, ?, classes with ranges and negation, class-only patterns, degenerate classes); every case also carries the routing facts observed by probing (shard-0 membership and co-location under both routing functions) and the raw DefaultHasher values of its keys; non-trivial = the N-shard run touched at least two different shards; distinct by request text".into();
     if std::env::var("C03_PANICS").is_err() { std::panic::set_hook(Box::new(|_| {})); }
     let rt = tokio::runtime::Builder::new_current_thread().enable_all().build().unwrap();
     let range: Vec<u64> = match args.only { Some(i) => vec![i], None => (0..args.n).collect() };
@@ -747,7 +1005,7 @@ fn main() {
         for i in range {
             let mut rng = case_rng(args.seed, i);
             let n = SHARD_COUNTS[rng.gen_range(0..SHARD_COUNTS.len())];
-            let flavour = match rng.gen_range(0..100) { 0..=44 => "pure", 45..=62 => "class", 63..=72 => "scan", 73..=86 => "wide", _ => "ttl" };
+            let flavour = match rng.gen_range(0..100) { 0..=37 => "pure", 38..=52 => "class", 53..=60 => "scan", 61..=72 => "wide", 73..=83 => "ttl", 84..=91 => "script", _ => "conn" };
             let wide = flavour == "wide";
             let mut sk = ps.clone();
             sk.shuffle(&mut rng);
@@ -769,6 +1027,12 @@ fn main() {
             }
             sk.retain(|k| !dk.contains(k));
             let c = Ctx { sk, dk };
+            let (mut conn_seq, mut conn_starts): (Vec<Rq>, Vec<bool>) = (Vec::new(), Vec::new());
+            if flavour == "conn" {
+                let (a, b2) = gen_conn(&mut rng, &c);
+                conn_seq = a;
+                conn_starts = b2;
+            }
             let len = rng.gen_range(8..31);
             let mut seq: Vec<Rq> = Vec::new();
             for _ in 0..len {
@@ -778,6 +1042,7 @@ fn main() {
                     "wide" if rng.gen_bool(0.5) => gen_wide(&mut rng, &c),
                     "wide" if rng.gen_bool(0.15) => gen_class(&mut rng, &c, true),
                     "ttl" if rng.gen_bool(0.75) => gen_ttl(&mut rng, &c, free_time),
+                    "script" if rng.gen_bool(0.6) => gen_script(&mut rng, &c),
                     _ => gen_single_home(&mut rng, &c),
                 };
                 seq.push(r);
@@ -824,6 +1089,9 @@ fn main() {
                     seq.push(Rq::Gen(Command::Ttl(k)));
                 }
             }
+            if flavour == "script" {
+                seq.extend(script_block(&mut rng, &c));
+            }
             let len = seq.len();
             for k in ek.iter() {
                 out.count(&format!("name-shape:{}", name_shape(k)));
@@ -832,6 +1100,8 @@ fn main() {
                 seq.push(Rq::Gen(Command::Scan { cursor: 0, pattern: None, count: Some(2) }));
             }
             seq.extend(dump_tail(&c, wide));
+            let is_conn = flavour == "conn";
+            let (seq, len) = if is_conn { let l = conn_seq.len(); (conn_seq, l) } else { (seq, len) };
             out.count(&format!("flavour:{}", flavour));
             out.count(&format!("shards:{}", n));
             for r in &seq[..seq.len().min(len + 1)] {
@@ -849,7 +1119,11 @@ fn main() {
             // clock has advanced without a sweep, a single shard has lazily dropped keys that other shards
             // of an N-shard node have had no reason to look at, and the counts legitimately differ
             let mut free_seen = false;
-            for r in &seq {
+            if is_conn {
+                obs1 = run_conn(1, &seq, &conn_starts).await;
+                obsn = run_conn(n, &seq, &conn_starts).await;
+            }
+            for r in seq.iter().filter(|_| !is_conn) {
                 if let Rq::Tick(ms) | Rq::Advance(ms) = r {
                     clock.advance(*ms);
                 }
